@@ -101,6 +101,40 @@ def admFields (targets : List Str) (f2h : List (Str × Str)) (pfx : Str) :
     admFields targets f2h pfx rest
 end
 
+def isAtom : PV → Bool
+  | .atom _ => true
+  | .list _ => false
+
+def allIdx (f : Val → Str → Bool) (pfx : Str) : Nat → List Val → Bool
+  | _, [] => true
+  | i, x :: xs => f x (idxPrefix pfx i) && allIdx f pfx (i + 1) xs
+
+mutual
+/-- `AnySpreadOk`: every untyped list that the layout spreads (no target header on it or
+above it) holds plain strings only — an untyped list holding lists must be packed
+(finding F-C04-d) -/
+def anyDeep (lay : Layout) : Ty → Val → Str → Bool
+  | ty, v, pfx =>
+    if matchesHeaders pfx lay.targets then true
+    else match ty, v with
+      | .anyList, .any xs => xs.all isAtom
+      | .list t, .list xs => allIdx (anyDeep lay t) pfx 1 xs
+      | .model fs _ f2h, .model kvs => anyDeepFields lay f2h pfx kvs fs
+      | _, _ => true
+def anyDeepFields (lay : Layout) (f2h : List (Str × Str)) (pfx : Str) (kvs : List (Str × Val)) :
+    List (Str × Ty × Option Val) → Bool
+  | [] => true
+  | (n, t, d) :: rest =>
+    (match alookup n kvs with
+      | none => true
+      | some x =>
+        if remap f2h n = n then (isDefault d x || anyDeep lay t x (pfx ++ '.' :: n)) else true) &&
+    anyDeepFields lay f2h pfx kvs rest
+end
+
+/-- `AnySpreadOk sch lay v` -/
+def AnySpreadOk (sch : Schema) (lay : Layout) (v : Val) : Bool := anyDeep lay sch.top v []
+
 /-- `Admissible sch lay`: nothing excluded, packed positions within the two-level limit -/
 def Admissible (sch : Schema) (lay : Layout) : Bool :=
   lay.excluded.isEmpty && admTy lay.targets sch.top []
